@@ -24,35 +24,48 @@ type scopeWrap struct {
 	inLoop, inFunc bool
 	// ownX: the wrapper itself binds x in its own scope (loop variable, catch variable, parameter, C-for var)
 	ownX bool
+	// noRun: the block under test is never entered (all conditions false, empty ranges, no matching case)
+	noRun bool
 }
 
 var scopeWraps = []scopeWrap{
-	{"if-then", func(b string) string { return "if true {\n" + b + "\n}" }, false, false, false},
-	{"else-if-body", func(b string) string { return "if false {\n} else if true {\n" + b + "\n}" }, false, false, false},
-	{"else", func(b string) string { return "if false {\n} else {\n" + b + "\n}" }, false, false, false},
-	{"try", func(b string) string { return "try {\n" + b + "\n} catch e {\n}" }, false, false, false},
-	{"catch", func(b string) string { return "try {\nthrow 1\n} catch e {\n" + b + "\n}" }, false, false, false},
-	{"finally", func(b string) string { return "try {\n} catch e {\n} finally {\n" + b + "\n}" }, false, false, false},
-	{"loop", func(b string) string { return "q = 0\nfor {\nq++\nif q > 2 { break }\n" + b + "\n}" }, true, false, false},
-	{"loop-cond", func(b string) string { return "q = 0\nfor q < 2 {\nq++\n" + b + "\n}" }, true, false, false},
-	{"cfor", func(b string) string { return "for q = 0; q < 2; q++ {\n" + b + "\n}" }, true, false, false},
-	{"cfor-var-x", func(b string) string { return "q = 0\nfor var x = 0; q < 2; q++ {\n" + b + "\n}" }, true, false, true},
-	{"forin", func(b string) string { return "for v in [1, 2] {\n" + b + "\n}" }, true, false, false},
-	{"forin-x", func(b string) string { return "for x in [\"l1\", \"l2\"] {\n" + b + "\n}" }, true, false, true},
-	{"forin-map-x", func(b string) string { return "for k, x in {\"k\": \"mv\"} {\n" + b + "\n}" }, true, false, true},
-	{"catch-var-x", func(b string) string { return "try {\nthrow \"cv\"\n} catch x {\n" + b + "\n}" }, false, false, true},
-	{"switch-case", func(b string) string { return "switch 1 {\ncase 1:\n" + b + "\n}" }, false, false, false},
-	{"switch-default", func(b string) string { return "switch 1 {\ncase 2:\n0\ndefault:\n" + b + "\n}" }, false, false, false},
-	{"module", func(b string) string { return "module mm {\n" + b + "\n}" }, false, false, false},
-	{"func", func(b string) string { return "func() {\n" + b + "\n}()" }, false, true, false},
-	{"func-param-x", func(b string) string { return "func(x) {\n" + b + "\n}(\"pv\")" }, false, true, true},
-	{"func5", func(b string) string { return "func(a1, a2, a3, a4, a5) {\n" + b + "\n}(1, 2, 3, 4, 5)" }, false, true, false},
-	{"func-variadic", func(b string) string { return "func(a1, rest...) {\n" + b + "\n}(1, 2, 3)" }, false, true, false},
-	{"nested-func", func(b string) string { return "func() {\nfunc() {\n" + b + "\n}()\n}()" }, false, true, false},
-	{"deferred", func(b string) string { return "func() {\ndefer func() {\n" + b + "\n}()\n}()" }, false, true, false},
+	{"if-then", func(b string) string { return "if true {\n" + b + "\n}" }, false, false, false, false},
+	{"else-if-body", func(b string) string { return "if false {\n} else if true {\n" + b + "\n}" }, false, false, false, false},
+	{"else", func(b string) string { return "if false {\n} else {\n" + b + "\n}" }, false, false, false, false},
+	{"try", func(b string) string { return "try {\n" + b + "\n} catch e {\n}" }, false, false, false, false},
+	{"catch", func(b string) string { return "try {\nthrow 1\n} catch e {\n" + b + "\n}" }, false, false, false, false},
+	{"finally", func(b string) string { return "try {\n} catch e {\n} finally {\n" + b + "\n}" }, false, false, false, false},
+	{"loop", func(b string) string { return "q = 0\nfor {\nq++\nif q > 2 { break }\n" + b + "\n}" }, true, false, false, false},
+	{"loop-cond", func(b string) string { return "q = 0\nfor q < 2 {\nq++\n" + b + "\n}" }, true, false, false, false},
+	{"cfor", func(b string) string { return "for q = 0; q < 2; q++ {\n" + b + "\n}" }, true, false, false, false},
+	{"cfor-var-x", func(b string) string { return "q = 0\nfor var x = 0; q < 2; q++ {\n" + b + "\n}" }, true, false, true, false},
+	{"forin", func(b string) string { return "for v in [1, 2] {\n" + b + "\n}" }, true, false, false, false},
+	{"forin-x", func(b string) string { return "for x in [\"l1\", \"l2\"] {\n" + b + "\n}" }, true, false, true, false},
+	{"forin-map-x", func(b string) string { return "for k, x in {\"k\": \"mv\"} {\n" + b + "\n}" }, true, false, true, false},
+	{"catch-var-x", func(b string) string { return "try {\nthrow \"cv\"\n} catch x {\n" + b + "\n}" }, false, false, true, false},
+	{"switch-case", func(b string) string { return "switch 1 {\ncase 1:\n" + b + "\n}" }, false, false, false, false},
+	{"switch-default", func(b string) string { return "switch 1 {\ncase 2:\n0\ndefault:\n" + b + "\n}" }, false, false, false, false},
+	{"module", func(b string) string { return "module mm {\n" + b + "\n}" }, false, false, false, false},
+	{"func", func(b string) string { return "func() {\n" + b + "\n}()" }, false, true, false, false},
+	{"func-param-x", func(b string) string { return "func(x) {\n" + b + "\n}(\"pv\")" }, false, true, true, false},
+	{"func5", func(b string) string { return "func(a1, a2, a3, a4, a5) {\n" + b + "\n}(1, 2, 3, 4, 5)" }, false, true, false, false},
+	{"func-variadic", func(b string) string { return "func(a1, rest...) {\n" + b + "\n}(1, 2, 3)" }, false, true, false, false},
+	{"nested-func", func(b string) string { return "func() {\nfunc() {\n" + b + "\n}()\n}()" }, false, true, false, false},
+	{"deferred", func(b string) string { return "func() {\ndefer func() {\n" + b + "\n}()\n}()" }, false, true, false, false},
 	{"recursion", func(b string) string {
 		return "func rec(n) {\nif n > 0 {\nrec(n - 1)\n}\n" + b + "\n}\nrec(2)"
-	}, false, true, false},
+	}, false, true, false, false},
+	{"if-false-no-else", func(b string) string { return "if false {\n" + b + "\n}" }, false, false, false, true},
+	{"else-if-none", func(b string) string { return "if false {\n} else if false {\n" + b + "\n}" }, false, false, false, true},
+	{"else-if-none-2", func(b string) string { return "if false {\n} else if 0 {\n} else if nil {\n" + b + "\n}" }, false, false, false, true},
+	{"else-if-none-cond-binds", func(b string) string {
+		return "if false {\n} else if func() { var x = \"c\"; return false }() {\n" + b + "\n}"
+	}, false, false, false, true},
+	{"loop-cond-false", func(b string) string { return "for false {\n" + b + "\n}" }, true, false, false, true},
+	{"cfor-zero", func(b string) string { return "for q = 0; q < 0; q++ {\n" + b + "\n}" }, true, false, false, true},
+	{"forin-empty", func(b string) string { return "for v in [] {\n" + b + "\n}" }, true, false, false, true},
+	{"switch-no-match", func(b string) string { return "switch 1 {\ncase 2:\n" + b + "\n}" }, false, false, false, true},
+	{"try-no-throw-catch", func(b string) string { return "try {\n} catch e {\n" + b + "\n}" }, false, false, false, true},
 }
 
 type scopeAction struct {
@@ -112,13 +125,14 @@ func streamScope(o *Out, r *rand.Rand, n int, thorough bool) {
 					}
 					// inside an outer try so that thrown / runtime errors are "caught later"; the variant without
 					// it leaves nothing between the construct and the top level that could hide a leaked scope
-					src := "x = \"outer\"\nz = 0\ntry {\n" + inner + "\n} catch err {\n}\nprobe(x)\nvar y = \"after\"\ny2 = \"after2\"\n"
+					// the catch block of the enclosing try reads x: it must see the binding visible where the try stands
+					src := "x = \"outer\"\nz = 0\ntry {\n" + inner + "\n} catch err {\nprobe(\"in-catch\")\nprobe(x)\n} finally {\nprobe(\"in-finally\")\nprobe(x)\n}\nprobe(x)\nvar y = \"after\"\ny2 = \"after2\"\n"
 					if !outerTry {
 						src = "x = \"outer\"\nz = 0\n" + inner + "\nprobe(x)\nvar y = \"after\"\ny2 = \"after2\"\n"
 					}
 					// expected x after: an assignment inside reaches the outer x unless the wrapper (or a var before it) rebinds x inside
 					wantX := "outer"
-					if a.assigns && !w.ownX {
+					if a.assigns && !w.ownX && !w.noRun {
 						wantX = "assigned"
 					}
 					// a finally / deferred body may not run if ... (all our wrappers run the body at least once)
@@ -146,6 +160,13 @@ func streamScope(o *Out, r *rand.Rand, n int, thorough bool) {
 					}
 					if len(res.trace) == 0 || res.trace[len(res.trace)-1] != vals.Encode(wantX) {
 						o.Fail(Failure{Oracle: "scope-binding-visibility", Key: "scope-read-x:" + key, Input: src, Detail: fmt.Sprintf("probe(x) after the construct saw %v, expected %q", res.trace, wantX)})
+					}
+					// reads of x inside the catch / finally block of the enclosing try
+					for ti := 0; ti+1 < len(res.trace); ti++ {
+						if (res.trace[ti] == vals.Encode("in-catch") || res.trace[ti] == vals.Encode("in-finally")) && res.trace[ti+1] != vals.Encode(wantX) {
+							o.Fail(Failure{Oracle: "scope-binding-visibility", Key: "scope-x-in-handler:" + key, Input: src, Detail: fmt.Sprintf("x read in the catch/finally block of the enclosing try is %s, expected %q (trace %v)", res.trace[ti+1], wantX, res.trace)})
+							break
+						}
 					}
 					// execution continues in the scope that was current before: y and y2 land in the top-level scope
 					if vars["y"] != vals.Encode("after") || vars["y2"] != vals.Encode("after2") {
